@@ -74,7 +74,7 @@ def cases() -> Any:
         reused_mw=st.sampled_from([False, False, True]),
         # the worker's wall clock is set back 5 s during this attempt (1-based; None: steady clock) - NTP step, VM resume
         clock_back=st.sampled_from([None, None, None, 1, 2, 3]),
-        fail_kind=st.sampled_from(["ValueError", "ValueError", "KeyError", "MyBase", "CancelledError", "SystemExit", "EmptyBatchError", "TaskiqResultTimeoutError", "SendTaskError", "TaskRejectedError", "ResultGetError"]),
+        fail_kind=st.sampled_from(["ValueError", "ValueError", "KeyError", "MyBase", "CancelledError", "SystemExit", "EmptyBatchError", "TaskiqResultTimeoutError", "SendTaskError", "TaskRejectedError", "ResultGetError", "BadStrError"]),
         # a second call of the same task handled by the same middleware instance (own labels, own outcome sequence)
         second=st.one_of(st.none(), st.none(), st.fixed_dictionaries(dict(
             outs=st.one_of(prefix, free),
@@ -124,6 +124,10 @@ def make_failure(kind: str) -> BaseException:
         from vt.harness.worker import EmptyBatchError
 
         return EmptyBatchError()      # a falsy exception instance (len() == 0)
+    if kind == "BadStrError":
+        from vt.harness.worker import BadStrError
+
+        return BadStrError()          # its text form cannot be built (__str__ raises): a failure like any other
     if hasattr(te, kind):
         return getattr(te, kind)()
     return {"ValueError": ValueError, "KeyError": KeyError}[kind]("f")
